@@ -793,6 +793,13 @@ impl Ctx {
     }
 }
 
+/// token-sequence pattern → regex that ignores whitespace differences between tokens
+fn pat_regex(pat: &str) -> regex::Regex {
+    let p = pretty(TokenStream::from_str(pat).unwrap_or_else(|_| die("pattern does not tokenize")), 0);
+    let parts: Vec<String> = p.split_whitespace().map(|t| regex::escape(t)).collect();
+    regex::Regex::new(&parts.join(r"\s+")).unwrap_or_else(|_| die("bad pattern"))
+}
+
 fn json_str(s: &str) -> String {
     let mut o = String::from("\"");
     for c in s.chars() {
@@ -1130,12 +1137,12 @@ fn emit_fn(ctx: &mut Ctx, d: &FnDir, out: &mut String) {
     for (k, v) in &d.opts {
         if k.starts_with("sub") && k[3..].chars().all(|c| c.is_ascii_digit()) && k.len() > 3 {
             let (from, to) = v.split_once("=>").unwrap_or_else(|| die("subN= expects from=>to"));
-            let fromp = pretty(TokenStream::from_str(from).unwrap_or_else(|_| die("bad sub")), 0);
-            let n = body.matches(fromp.trim()).count();
+            let re = pat_regex(from);
+            let n = re.find_iter(&body).count();
             if n != 1 {
-                die(&format!("lost anchor: substitution `{}` matches {} times in {} (must be 1)", fromp.trim(), n, d.path));
+                die(&format!("lost anchor: substitution `{}` matches {} times in {} (must be 1)", from.trim(), n, d.path));
             }
-            body = body.replacen(fromp.trim(), to.trim(), 1);
+            body = re.replacen(&body, 1, regex::NoExpand(to.trim())).into_owned();
             subs_done.push(format!("{} => {}", from.trim(), to.trim()));
         }
     }
@@ -1143,12 +1150,12 @@ fn emit_fn(ctx: &mut Ctx, d: &FnDir, out: &mut String) {
     for (k, v) in &d.opts {
         if k.starts_with("suball") {
             let (from, to) = v.split_once("=>").unwrap_or_else(|| die("suballN= expects from=>to"));
-            let fromp = pretty(TokenStream::from_str(from).unwrap_or_else(|_| die("bad suball")), 0);
-            let n = body.matches(fromp.trim()).count();
+            let re = pat_regex(from);
+            let n = re.find_iter(&body).count();
             if n == 0 {
-                die(&format!("lost anchor: substitution `{}` matches nothing in {}", fromp.trim(), d.path));
+                die(&format!("lost anchor: substitution `{}` matches nothing in {}", from.trim(), d.path));
             }
-            body = body.replace(fromp.trim(), to.trim());
+            body = re.replace_all(&body, regex::NoExpand(to.trim())).into_owned();
             subs_done.push(format!("{} => {} ({}x)", from.trim(), to.trim(), n));
         }
     }
